@@ -21,6 +21,7 @@ import (
 	"errors"
 	"fmt"
 	"regexp"
+	"strconv"
 
 	. "github.com/siglens/siglens/pkg/segment/structs"
 	. "github.com/siglens/siglens/pkg/segment/utils"
@@ -392,6 +393,19 @@ func fopOnNumber(rec []byte, qValDte *DtypeEnclosure,
 	}
 
 	if !validNumberType {
+		// A string that reads as a number is compared by value, like the where
+		// command and the stats do; consolidateColumnTypes also stores numbers
+		// as text when a block column holds both.
+		if len(rec) > 3 && rec[0] == VALTYPE_ENC_SMALL_STRING[0] {
+			if _, perr := utils.FastParseFloat(rec[3:]); perr == nil {
+				floatVal, perr := strconv.ParseFloat(string(rec[3:]), 64)
+				if perr == nil {
+					recDte.Dtype = SS_DT_FLOAT
+					recDte.FloatVal = floatVal
+					return compareNumberDte(recDte, qValDte, op)
+				}
+			}
+		}
 		// This can happen if we search for a number in a string-only field.
 		// In this case, =, <, >=, etc. should not match, but != should match.
 		return op == NotEquals, nil
